@@ -2,11 +2,16 @@ use crate::report::Report;
 use crate::Ctx;
 
 pub mod c01;
+pub mod c02;
+pub mod c03;
 pub mod c04;
+pub mod c05;
+pub mod c07;
 pub mod c08;
 pub mod c09;
 pub mod c10;
 pub mod c11;
+pub mod c13;
 pub mod c16;
 pub mod c20;
 pub mod probe;
@@ -16,13 +21,18 @@ pub fn run(engine: &str, ctx: &Ctx) -> Option<Report> {
     let mut rep = Report::new(engine);
     match engine {
         "c01" => c01::run(ctx, &mut rep),
+        "c02" => c02::run(ctx, &mut rep),
+        "c03" => c03::run(ctx, &mut rep),
         "c04" => c04::run(ctx, &mut rep),
+        "c05" => c05::run(ctx, &mut rep),
+        "c07" => c07::run(ctx, &mut rep),
         "c08" => c08::run(ctx, &mut rep),
         "c09" => c09::run(ctx, &mut rep),
         "c10" => c10::run(ctx, &mut rep),
         "c11" => c11::run(ctx, &mut rep),
         "probe2" => probe2::run(ctx, &mut rep),
         "probe" => probe::run(ctx, &mut rep),
+        "c13" => c13::run(ctx, &mut rep),
         "c16" => c16::run(ctx, &mut rep),
         "c20" => c20::run(ctx, &mut rep),
         _ => return None,
